@@ -541,8 +541,17 @@ def analyse_full(fn, facts):
                     flags_set[lp[0]] = row
                 if lp and lp[0] == "this" and len(lp) > 1:
                     row["writes"].add(lp[1])
+            # reads that only size a capacity request (`v.reserve(min(n, limit))`) cannot change what is decoded
+            hint_only = set()
             for s in stmts_:
                 for n in ir.walk(s):
+                    if n.get("k") == "MCall" and callee_name(n) == "reserve" and ((n.get("callee") or {}).get("cls") or "").startswith("std::"):
+                        for a_ in n.get("args", []):
+                            hint_only |= set(id(x) for x in ir.walk(a_))
+            for s in stmts_:
+                for n in ir.walk(s):
+                    if id(n) in hint_only:
+                        continue
                     if n.get("k") == "MCall" and callee_name(n) in ("clear", "read", "reset", "push_back"):
                         p = path(n.get("recv"))
                         if p and p[0] == "this" and len(p) > 1:
